@@ -65,7 +65,17 @@ def rate(J, b, cur_from, cur_to, k):
 
 
 def gov_role(z):
-    return 'TRE' if z['gov']['form'] == 'treasury_cb' else 'GOV'
+    return 'TRE' if z['gov']['form'] in ('treasury_cb', 'gold_cb') else 'GOV'
+
+
+def gold_holder(b, z):
+    """(key, role) of the sector that buys gold in this zone, or None."""
+    gkey, grole = b.gov_of[z['cur']]
+    if z['gov']['form'] == 'gold':
+        return (gkey, grole)
+    if z['gov']['form'] == 'gold_cb':
+        return (gkey, 'CB')
+    return None
 
 
 def expected_flows(b, spec):
@@ -84,9 +94,10 @@ def expected_flows(b, spec):
         add(gk, -1, vn(b, gkey, grole, 'DEM_GOOD'), cur)
         if g['deposits']:
             add(gk, -1, vn(b, gkey, grole, 'INTDEP'), cur)
-        if g['form'] == 'gold':
-            add(gk, -1, vn(b, gkey, grole, 'GOLDPURCHASES'), cur)
-        if g['form'] == 'treasury_cb':
+        gh = gold_holder(b, z)
+        if gh is not None:
+            add(gh, -1, vn(b, gh[0], gh[1], 'GOLDPURCHASES'), cur)
+        if g['form'] in ('treasury_cb', 'gold_cb'):
             cb = (gkey, 'CB')
             add(gk, +1, vn(b, gkey, 'CB', 'INTDEP'), cur)
             add(cb, +1, vn(b, gkey, 'CB', 'INTDEP'), cur)
@@ -259,7 +270,7 @@ def check_markets(J, b, spec):
         # ---- money / deposit markets
         holders = [key for key, s in b.sectors.items() if s.HasF and b.zone_of[key[0]] == cur]
         if g['money']:
-            issuer = (gkey, 'CB' if g['form'] == 'treasury_cb' else 'GOV')
+            issuer = (gkey, 'CB' if g['form'] in ('treasury_cb', 'gold_cb') else 'GOV')
             mon = b.sectors[(gkey, 'MON')]
             hold_names = [b.sectors[h].GetVariableName('DEM_MON') for h in holders if h != issuer]
             J.equal_series('money_demand_not_sum_of_holders', 'MON demand',
@@ -282,7 +293,7 @@ def check_markets(J, b, spec):
         if g['deposits']:
             dep = b.sectors[(gkey, 'DEP')]
             dholders = [(c['key'], 'HH') for c in regions if c['hh']['portfolio']]
-            if g['form'] == 'treasury_cb':
+            if g['form'] in ('treasury_cb', 'gold_cb'):
                 dholders.append((gkey, 'CB'))
             dnames = [b.sectors[h].GetVariableName('DEM_DEP') for h in dholders]
             J.equal_series('deposit_demand_not_sum_of_holders', 'DEP demand',
@@ -321,7 +332,7 @@ def check_fx(J, b, spec):
         return tot
     J.equal_series('fx_net_positions_not_zero_in_numeraire', 'sum NET_c * XR_c = 0', valued,
                    lambda k: Fraction(0), k_from=1, ctx={'currencies': curs})
-    has_gold = any(z['gov']['form'] == 'gold' for z in spec['zones'])
+    has_gold = any(z['gov']['form'] in ('gold', 'gold_cb') for z in spec['zones'])
     if not has_gold:
         J.equal_series('numeraire_position_not_zero_with_paired_flows', 'NET_NUMERAIRE = 0',
                        lambda k: J.v(nets['NUMERAIRE'], k), lambda k: Fraction(0), k_from=1)
@@ -347,9 +358,9 @@ def check_fx(J, b, spec):
             if dc == cur:
                 recv.append((name, sc))
         gold = []
-        if z['gov']['form'] == 'gold':
-            gkey, grole = b.gov_of[cur]
-            gold.append(vn(b, gkey, grole, 'GOLDPURCHASES'))
+        gh = gold_holder(b, z)
+        if gh is not None:
+            gold.append(vn(b, gh[0], gh[1], 'GOLDPURCHASES'))
 
         def expected(k, sent=sent, recv=recv, gold=gold, cur=cur):
             tot = Fraction(0)
